@@ -1291,6 +1291,10 @@ theorem Inv.succ (hEnv : EnvWF env) (hp : ∀ p, p.proved = true → PrimOK p) (
     | prim p => exact enc_prim hp p v b b' hw hd he
     | vmStack e => simp [wfb] at hw
     | chain e => simp [wfb] at hw
+    | dictAugE k t x => simp [wfb] at hw
+    | dictAug k t x => simp [wfb] at hw
+    | binTree t => simp [wfb] at hw
+    | custom id body aux => simp [wfb] at hw
     | highload => exact enc_highload h v b b' hd he
     | dictE k t => exact enc_dictE h k t v b b' hw hd he
     | dict k t => exact enc_dict h k t v b b' hw hd he
